@@ -145,6 +145,7 @@ pub fn run(r: &mut Runner) {
     for h in [0.0, -0.0, 1.0, -1.0, 0.5, -0.5, next_up(0.5), next_down(0.5), next_up(1.0), -next_up(1.0), 1.5, -2.0, 1e300, 0.7071067811865476, 0.8660254037844386] {
         xs.extend(with_los(h, &[0, 1, 30], &[0, (1u64 << 52) - 1], &[]));
     }
+    xs.extend(crate::fx::linear_ladder(1, 256, 256.0, true));
     xs.push([1.0, 2f64.powi(-60)]);
     xs.push([-1.0, -2f64.powi(-60)]);
     dedup(&mut xs);
@@ -170,6 +171,9 @@ pub fn run(r: &mut Runner) {
             }
         }
     }
+    // the interior of every reduction interval, linearly: j/128 up to 8, j/4 up to 64
+    xa.extend(crate::fx::linear_ladder(1, 1024, 128.0, true));
+    xa.extend(crate::fx::linear_ladder(33, 256, 4.0, true));
     xa.push([0.0, 0.0]);
     xa.push([-0.0, 0.0]);
     dedup(&mut xa);
@@ -188,6 +192,15 @@ pub fn run(r: &mut Runner) {
     for z in [[0.0, 0.0], [-0.0, 0.0], [0.0, -0.0], [-0.0, -0.0], [2f64.powi(30), 0.0], [-2f64.powi(30), 0.0], [2f64.powi(-30), 0.0], [-2f64.powi(-30), 0.0]] {
         g.push(z);
     }
+    // ratios across every atan reduction interval: y = j/32 (j up to 128) against x = +-1, +-3
+    for j in 1..=128 {
+        g.push([j as f64 / 32.0, 0.0]);
+        g.push([-(j as f64) / 32.0, 2f64.powi(-60)]);
+    }
+    g.push([3.0, 0.0]);
+    g.push([-3.0, 0.0]);
+    g.push([1.0, 0.0]);
+    g.push([-1.0, 0.0]);
     dedup(&mut g);
     let ng = g.len();
     r.notes.push(format!("atan2: all ordered pairs of {} operands (2^-30..2^30, both signs, signed zeros)", ng));
